@@ -1,19 +1,40 @@
 """C05 - reference bookkeeping is exact after every completed call (one inductive step from arbitrary Inv state)."""
 from props.common import *   # noqa
 
-MINE = {"store-state:dup-line", "store-state:foreign-line", "store-state:unterminated-line", "store-state:pid-ref-garbled", "store-state:tmp-residue", "store-state:delete-marker-residue", "store-state:foreign-file", "bookkeeping-not-exact", "result-class", "model:bind", "model:obj",
+menu_fn = full_menu
+
+
+def probe_menu(w):
+    """one call of each method on pid0, each followed by the fresh-instance equivalence probe (small universe)"""
+    import hashlib
+    c1 = w.contents[1]
+    return [step.probed(c) for c in (
+        step.StoreObj(0, 1), step.Tag(0, 1), step.Delete(0), step.Retrieve(0), step.HexDigest(0, "md5", "md5"),
+        step.StoreMeta(0, 0, None), step.RetrieveMeta(0, None), step.DeleteMeta(0, None, all_docs=True),
+        step.StoreData(1), step.DeleteIfInvalid(1, hashlib.md5(c1).hexdigest(), "md5", len(c1) + 1, True, ", wrong size"))]
+
+
+PROBE_ARGS = dict(pids=["a", "b"], contents=[b"x", b"0123456789ab"], formats=[None], fake_cid=False, sym_dirs=False)
+
+
+MINE = {"history:results-depend-on-earlier-calls-on-the-instance", "store-state:dup-line", "store-state:foreign-line", "store-state:unterminated-line", "store-state:pid-ref-garbled", "store-state:tmp-residue", "store-state:delete-marker-residue", "store-state:foreign-file", "bookkeeping-not-exact", "result-class", "model:bind", "model:obj",
         "instance-state"}
 
 
 def main(tier, replay_payload=None):
     w_args = universe(tier)
-    menu_fn = full_menu
     if replay_payload is not None:
+        if replay_payload.get("probe"):
+            return make_replayer(PROBE_ARGS, probe_menu)(replay_payload)
         return make_replayer(w_args, menu_fn)(replay_payload)
     run = report.Run("C05", tier, technique="pathsym: one inductive step, z3-discharged Inv closure and model equality")
-    run.replayer = make_replayer(w_args, menu_fn)
+    run.replayer = lambda p: (make_replayer(PROBE_ARGS, probe_menu) if p.get("probe") else make_replayer(w_args, menu_fn))(p)
     res = step.explore_steps(w_args, menu_fn)
     collect(run, res, MINE, w_args, menu_fn)
+    before = set(run.failures)
+    collect(run, step.explore_steps(PROBE_ARGS, probe_menu), MINE, PROBE_ARGS, probe_menu)
+    for sig in set(run.failures) - before:
+        run.failures[sig]["payload"]["probe"] = True
     run.functions = loader.function_lines(loader.load(), API_FUNCS)
     run.bounds = dict(pids=w_args["pids"], contents=[len(c) for c in w_args["contents"]], formats=w_args["formats"],
                       cids="digests of the contents + one never-stored cid", calls=res[0][2],
@@ -22,7 +43,9 @@ def main(tier, replay_payload=None):
                        "variables) and every call of the menu, the real method is executed over the symbolic file-system "
                        "model; z3 proves Inv(post), post = reference-model(pre, call) and the documented result class "
                        "for all untouched state at once. The empty store satisfies Inv, so histories of any length "
-                       "inside the universe are covered.")
+                       "inside the universe are covered. Instance state is not part of Inv: instead, after one call of "
+                       "each method a fixed follow-up history touching every method must give identical results on the "
+                       "instance that served the call and on a fresh instance over a copy of the same store.")
     run.outside = ["identifiers/contents outside the universe", "more than |P| simultaneously bound pids",
                    "files placed in the store by hand"]
     run.need("a call was rejected as already-existing", run.reach["exists"] > 0)
